@@ -55,6 +55,7 @@ fn hist(args: &[String]) {
     let basic = args.get(5).map(|s| s == "basic").unwrap_or(false);
     let fwonly = args.get(5).map(|s| s == "fw").unwrap_or(false);
     let tfcmode = args.get(5).map(|s| s == "tfc").unwrap_or(false);
+    let layered = args.get(5).map(|s| s == "layered").unwrap_or(false);
     let cyclic_all = args.get(5).map(|s| s == "cyclic-all").unwrap_or(false);
     let cyclic_ng = args.get(5).map(|s| s == "cyclic-nogroup").unwrap_or(false);
     let cyclic = cyclic_all || cyclic_ng || args.get(5).map(|s| s == "cyclic").unwrap_or(false);
@@ -72,7 +73,7 @@ fn hist(args: &[String]) {
     let hang_secs: u64 = std::env::var("QV_HANG_SECS").ok().and_then(|s| s.parse().ok()).unwrap_or(20);
     let only: Option<u64> = std::env::var("QV_ONLY").ok().and_then(|s| s.parse().ok());
     for k in 0..n {
-        let g = GenCfg { max_nodes: 10, max_ops: 14, allow_fw: !basic && (!cyclic || cyclic_all), allow_proj: !basic && !fwonly && (!cyclic || cyclic_all), allow_ext: !basic && !fwonly, allow_group: !basic && !fwonly && !cyclic_ng, restarts: cfg != "mem", cyclic };
+        let g = GenCfg { max_nodes: 10, max_ops: 14, allow_fw: !basic && (!cyclic || cyclic_all), allow_proj: !basic && !fwonly && (!cyclic || cyclic_all), allow_ext: !basic && !fwonly, allow_group: !basic && !fwonly && !cyclic_ng, restarts: cfg != "mem", cyclic, layered };
         let s = if tfcmode { gen_scenario_tfc(&mut r) } else { gen_scenario(&mut r, &g) };
         if let Some(only) = only { if only != k { continue; } }
         if std::env::var("QV_TRACE_SCN").is_ok() { std::fs::write(format!("{dir}/current.txt"), scenario_coq(&s)).unwrap(); }
@@ -307,7 +308,7 @@ fn crash(args: &[String]) {
     let mut viol: Vec<String> = Vec::new();
     let mut groups: HashMap<u64, u64> = HashMap::new();
     for k in 0..n {
-        let g = GenCfg { max_nodes: 8, max_ops: 10, allow_fw: true, allow_proj: true, allow_ext: false, allow_group: true, restarts: true, cyclic: false };
+        let g = GenCfg { max_nodes: 8, max_ops: 10, allow_fw: true, allow_proj: true, allow_ext: false, allow_group: true, restarts: true, cyclic: false, layered: false };
         let s = gen_scenario(&mut r, &g);
         let cap = *r.pick(&[1u64, 2, 4, 64]);
         let group_max = r.below(4);
@@ -398,7 +399,7 @@ fn cancel(args: &[String]) {
     let (mut cancelled, mut cancelled_pending, mut panics_injected, mut panics_seen, mut judged, mut commits_dropped) = (0u64, 0u64, 0u64, 0u64, 0u64, 0u64);
     let mut viol: Vec<String> = Vec::new();
     for k in 0..n {
-        let g = GenCfg { max_nodes: 9, max_ops: 12, allow_fw: true, allow_proj: true, allow_ext: false, allow_group: true, restarts: false, cyclic: false };
+        let g = GenCfg { max_nodes: 9, max_ops: 12, allow_fw: true, allow_proj: true, allow_ext: false, allow_group: true, restarts: false, cyclic: false, layered: false };
         let s = gen_scenario(&mut r, &g);
         let mut rr = r.fork();
         let res = runtime.block_on(async {
